@@ -948,6 +948,7 @@ func (x *c16Runner) directionA(k *c16Case) {
 			if b, err := e.(json.Marshaler).MarshalJSON(); err == nil {
 				realJ, _ = c16CanonText(b, false)
 			}
+			x.textLegExp(k, id, e)
 		}
 		sflag := "0"
 		if split {
@@ -1047,6 +1048,7 @@ func (x *c16Runner) directionA(k *c16Case) {
 			Input: k.input(), Impl: src})
 		return
 	}
+	x.textLegCall(k, &inv, src)
 	if !allPrintable {
 		r.violate(Violation{Kind: "correspondence", Key: k.key("printable-model-mismatch"),
 			What:  "model says a split binding is not expressible in MRO text, yet the generated source parsed",
